@@ -133,6 +133,16 @@ def check(case):
     require(doc_to_binary_label("genuine").value == "pos" and doc_to_binary_label("fraud").value == "neg",
             "fraud:label-translation", "genuine<->pos")
     if raised:
+        # the alternative constructor validates like the constructor
+        if len(g) + len(f):
+            lab = np.asarray([5] * len(g) + [2] * len(f))
+            try:
+                FraudScores.from_labels(lab, np.concatenate([g, f]), genuine_label=5, score_class=sc_arg)
+                accepted = True
+            except ValueError:
+                accepted = False
+            require(not accepted, "fraud:validation",
+                    f"{ctx}: from_labels accepted scores that the constructor rejects (a score lies outside [0,1])")
         return dict(nontrivial=True, labels=["rejected"])
     ref = Scores(g, f, nb_easy_pos=case["eg"], nb_easy_neg=case["ef"],
                  score_class={"genuine": "pos", "fraud": "neg"}[case["sc"]], equal_class="pos")
